@@ -590,8 +590,13 @@ class AtLeastKInARow(_KInARow):
             implications.append(If(sublists[0][0], And(sublists[0][1:-1])))
             for sublist in sublists:
                 implications.append(If(And([Not(sublist[0]), sublist[1]]), And(sublist[2:])))
-            # Ending corner case
-            implications.append(If(Not(sublists[-1][1]), Not(Or(sublists[-1][2:]))))
+            # Ending corner case: a run cannot start so late that it has no room for k trials
+            last = sublists[-1]
+            implications.append(If(Not(last[1]), Not(Or(last[2:]))))
+            if len(sublists) > 1:
+                # (with a single window, the rules above already imply these)
+                for j in range(2, len(last) - 1):
+                    implications.append(If(Not(last[j]), Not(Or(last[j+1:]))))
 
         (cnf, new_fresh) = block.cnf_fn(And(implications), backend_request.fresh)
 
